@@ -3,7 +3,9 @@ package hx
 import (
 	"fmt"
 	"math/rand"
+	"sort"
 	"strings"
+	"time"
 
 	"github.com/vektah/gqlparser/v2"
 	"github.com/vektah/gqlparser/v2/ast"
@@ -257,4 +259,115 @@ func MergeDirsCorr(c *Ctx, r *rand.Rand) (fails []Failure, feat string) {
 		return nil, "dirs-accepted"
 	}
 	return nil, "dirs-rejected"
+}
+
+// L2.mergelocs: merge.go's merging of the location lists of two definitions of one directive against Ml.mergeLocs
+// (lean/GwModel/MergeLocs.lean): two lists over all nineteen locations, through gateway.New in both service orders;
+// the outcome (merged or refused) and, when merged, the merged definition's locations must be the model's.
+var allLocations = []string{"QUERY", "MUTATION", "SUBSCRIPTION", "FIELD", "FRAGMENT_DEFINITION", "FRAGMENT_SPREAD", "INLINE_FRAGMENT", "VARIABLE_DEFINITION",
+	"SCHEMA", "SCALAR", "OBJECT", "FIELD_DEFINITION", "ARGUMENT_DEFINITION", "INTERFACE", "UNION", "ENUM", "ENUM_VALUE", "INPUT_OBJECT", "INPUT_FIELD_DEFINITION"}
+
+func genLocList(r *rand.Rand, base []string) []string {
+	var l []string
+	if base == nil {
+		for n := 1 + r.Intn(5); n > 0; n-- {
+			x := allLocations[r.Intn(len(allLocations))]
+			dup := false
+			for _, y := range l {
+				dup = dup || y == x
+			}
+			if !dup {
+				l = append(l, x)
+			}
+		}
+		return l
+	}
+	l = append([]string{}, base...)
+	switch r.Intn(5) {
+	case 0:
+		r.Shuffle(len(l), func(i, j int) { l[i], l[j] = l[j], l[i] })
+	case 1: // one more type-system location
+		l = append(l, allLocations[8+r.Intn(11)])
+	case 2: // one more executable location
+		l = append(l, allLocations[r.Intn(8)])
+	case 3: // one dropped
+		if len(l) > 1 {
+			k := r.Intn(len(l))
+			l = append(l[:k], l[k+1:]...)
+		}
+	}
+	// no repetitions (invalid SDL)
+	seen := map[string]bool{}
+	var out []string
+	for _, x := range l {
+		if !seen[x] {
+			seen[x] = true
+			out = append(out, x)
+		}
+	}
+	return out
+}
+
+func MergeLocsCorr(c *Ctx, r *rand.Rand) (fails []Failure, feat string) {
+	if c.Drv == nil {
+		return nil, ""
+	}
+	l1 := genLocList(r, nil)
+	l2 := genLocList(r, l1)
+	if r.Intn(4) == 0 {
+		l2 = genLocList(r, nil)
+	}
+	sdl := func(l []string, k int) string {
+		return fmt.Sprintf("directive @mark(n: Int) on %s\ntype Query { thing%d: String }\n", strings.Join(l, " | "), k)
+	}
+	s1, s2 := sdl(l1, 1), sdl(l2, 2)
+	in := map[string]interface{}{"service1": s1, "service2": s2}
+	if _, e := gqlparser.LoadSchema(&ast.Source{Input: s1}); e != nil {
+		return nil, "invalid-sdl"
+	}
+	if _, e := gqlparser.LoadSchema(&ast.Source{Input: s2}); e != nil {
+		return nil, "invalid-sdl"
+	}
+	for oi, order := range [][2][]string{{l1, l2}, {l2, l1}} {
+		ans, err := c.Drv.Call(map[string]interface{}{"op": "mergelocs", "a": order[0], "b": order[1]})
+		if err != nil {
+			return []Failure{{Channel: "harness", Classifier: "harness-error", What: err.Error(), Input: in}}, ""
+		}
+		sdls := []string{s1, s2}
+		if oi == 1 {
+			sdls = []string{s2, s1}
+		}
+		spec := FedSpec{SDLs: map[string]string{"S1": sdls[0], "S2": sdls[1]}, Order: []string{"S1", "S2"}}
+		f, gerr := NewFed(spec, Store{})
+		if gerr != nil && strings.HasPrefix(gerr.Error(), "PANIC") {
+			return []Failure{{Channel: "L2.mergelocs", Classifier: "unclassified", What: "gateway.New panicked on two definitions of one directive: " + firstLine(gerr.Error()), Input: in}}, ""
+		}
+		wantOK := ans["ok"] != nil
+		if (gerr == nil) != wantOK {
+			what := "two definitions of a directive that differ in an executable location are merged"
+			if gerr != nil {
+				what = "two definitions of a directive with the same executable locations are refused: " + firstLine(gerr.Error())
+			}
+			return []Failure{{Channel: "L2.mergelocs", Classifier: "unclassified", What: what, Input: in, Expected: ans, Observed: ErrString(gerr)}}, ""
+		}
+		if gerr == nil {
+			f.Plan(`{ __typename }`, 5*time.Second)
+			if f.Merged == nil || f.Merged.Directives["mark"] == nil {
+				return []Failure{{Channel: "L2.mergelocs", Classifier: "unclassified", What: "the merged schema has no definition of the directive both services define", Input: in}}, ""
+			}
+			var got, want []string
+			for _, l := range f.Merged.Directives["mark"].Locations {
+				got = append(got, string(l))
+			}
+			for _, x := range ans["ok"].([]interface{}) {
+				want = append(want, x.(string))
+			}
+			sort.Strings(got)
+			sort.Strings(want)
+			if fmt.Sprint(got) != fmt.Sprint(want) {
+				return []Failure{{Channel: "L2.mergelocs", Classifier: "unclassified", What: fmt.Sprintf("the merged directive allows %v, the model %v", got, want), Input: in, Expected: want, Observed: got}}, ""
+			}
+		}
+	}
+	return nil, "locs-compared"
 }
